@@ -340,9 +340,32 @@ def check_one_shot(rep, unit):
     return n
 
 
+def check_inserting_lookup(rep, unit):
+    """OWN.inserting-lookup: a module-level collections.defaultdict (with a factory) inserts the key on every failed `table[key]`:
+    a lookup from a function grows the table, and later membership tests / lookups depend on the call history."""
+    file = unit.rel
+    for st in unit.tree.body:
+        if not (isinstance(st, ast.Assign) and len(st.targets) == 1 and isinstance(st.targets[0], ast.Name)):
+            continue
+        v = st.value
+        if not (isinstance(v, ast.Call) and src(v.func) in ('defaultdict', 'collections.defaultdict') and v.args
+                and not (isinstance(v.args[0], ast.Constant) and v.args[0].value is None)):
+            continue
+        name = st.targets[0].id
+        for qual, fn, _cls in unit.funcs:
+            if name in local_names(fn):
+                continue
+            for r in ast.walk(fn):
+                if isinstance(r, ast.Subscript) and isinstance(r.ctx, ast.Load) and isinstance(r.value, ast.Name) and r.value.id == name:
+                    rep.fail('OWN.inserting-lookup', file, qual, src(enclosing_stmt(fn, r) or r)[:120], r.lineno,
+                             'module-level %s is a defaultdict: `%s` stores the key it did not find, so membership tests and lookups in later calls '
+                             'depend on which keys earlier calls asked for' % (name, src(r)[:60]))
+
+
 def check_unit(rep, unit, registry_owner=False):
     file = unit.rel
     check_one_shot(rep, unit)
+    check_inserting_lookup(rep, unit)
     written = {}
     for qual, fn, cls in unit.funcs:
         for w in find_writes(unit, fn):
@@ -493,6 +516,10 @@ def check(tier):
     check_one_shot(probe, Unit('probe.py', 'probe.py', ast.parse('_mods = (m for m in (1, 2))\ndef f(x):\n    for m in _mods:\n        return m\n')))
     if len(probe.findings) != 1:
         rep.error('OWN.one-shot-global no longer recognises its positive example')
+    probe = Report('C13', tier)
+    check_inserting_lookup(probe, Unit('probe.py', 'probe.py', ast.parse('from collections import defaultdict\n_t = defaultdict(int, {1: 2})\ndef f(x):\n    return _t[x]\n')))
+    if len(probe.findings) != 1:
+        rep.error('OWN.inserting-lookup no longer recognises its positive example')
     rep.expect_at_least('OWN.memo-key', 4, 'memo stores (numdb, iban, eu.vat, vatin, soap)')
     rep.expect_at_least('OWN.mutable-default', 100, 'default arguments')
     rep.not_decided = ['interleavings are not enumerated: the effect discipline makes every call a function of its arguments',
